@@ -339,6 +339,32 @@ pub fn drive_pair(s: &mut Session, rng: &mut Rng, thorough: bool) {
     }
 }
 
+/// range end points (C17): samples 0.0 and 1.0, the two codes around the press boundary, all rates and
+/// resistor triples, buffers sized by the provided helper
+pub fn drive_extreme(s: &mut Session, rng: &mut Rng) {
+    for &fs in RATES.iter() {
+        for ri in 0..3 {
+            s.start(fs, ri);
+            let need = s.need;
+            let thr = s.thr;
+            let codes = [0u32, 4096, thr - 1, thr, 1, 4095];
+            for _ in 0..(need / 2 + 10).min(400) {
+                s.poll(*rng.pick(&codes));
+            }
+            for _ in 0..(need + 3) {
+                s.poll(if rng.chance(1, 2) { 0 } else { thr - 1 });
+            }
+            s.jp();
+            s.poll(4096);
+            s.jr();
+            for _ in 0..(need + 3) {
+                s.poll(thr - 1);
+            }
+            s.poll(thr);
+        }
+    }
+}
+
 pub fn rerun(lines: &[serde_json::Value], out: &mut Out) {
     let mut s = Session::new(out);
     for e in lines {
@@ -371,6 +397,7 @@ pub fn record(driver: &str, seed: u64, thorough: bool, out: &mut Out) -> Stats {
     match driver {
         "press" => drive_press(&mut s, &mut rng, thorough),
         "pair" => drive_pair(&mut s, &mut rng, thorough),
+        "extreme" => drive_extreme(&mut s, &mut rng),
         _ => {
             eprintln!("unknown ribbon driver {}", driver);
             std::process::exit(2)
